@@ -27,6 +27,7 @@ def c12_generate(spec, seed, tier):
     sw.p_query = 0.0
     sw.p_sample = 0.0
     sw.exotic_enc = False
+    sw.p_reject = sw.p_rollout = sw.p_sibling = 0.0
     sw.n_ops = min(80, sw.n_ops * 2 if tier == "quick" else sw.n_ops * 4)
     sim = EnvSim(spec, {"fully_obs": False, "flat_actions": True,
                         "flat_obs": True}, [], seed, tier)
@@ -101,10 +102,16 @@ def c12_run_replicas(spec, ops, seed, tier, phase, shared, counters,
             if phase == "seeded" and not seed_before:
                 np.random.seed(np_seed)
             encs = envsim.FLAT_ENCODINGS if mt[1] else envsim.PARAM_ENCODINGS
+            r2 = core.stream(seed, "encoding2-%d%d%d" % tuple(map(int, mt)))
+            pref = r2.choice(encs)     # an agent mostly sticks to one style
             for op in usable:
                 op = dict(op)
                 if op["op"] == "step":
                     op["enc"] = rng.choice(encs)
+                    if r2.random() < 0.7:
+                        op["enc"] = pref
+                    if not mt[1] and r2.random() < 0.3:
+                        op["wrap"] = r2.randint(1, 5)
                     counters.hit("fault.encoding." + op["enc"])
                 sim.exec_op(op)
             outs.append((mt, sim.record, sim.progress))
@@ -302,6 +309,13 @@ class World:
             finally:
                 np.random.set_state(st)
             cfg = reader.from_generated(scenario)
+        if k in self.envs:
+            # the environment this one replaces is dropped first, and dies
+            # here (deterministic collection point, see seams.SimId)
+            old = self.envs.pop(k)
+            old.oracle = None
+            del old
+            seams.collect_now()
         sim = EnvSim.__new__(EnvSim)
         # EnvSim installs its own seam; in a world the seam is shared
         sim_init(sim, spec, op["modes"], self, scenario, cfg)
@@ -420,6 +434,7 @@ def c19_world_run(ops, seed, tier, only=None):
     w = World(seed, tier)
     per_env = {}
     touched = []
+    layout_hist = []      # (op index, env, layout signature) per construct
     try:
         for i, op in enumerate(ops):
             k = op.get("env")
@@ -427,6 +442,8 @@ def c19_world_run(ops, seed, tier, only=None):
                 continue
             snap = w.snapshot(k) if only is None else None
             who, d = w.exec(op)
+            if op["op"] == "construct" and k in w.envs:
+                layout_hist.append((i, k, layout_sig(w.envs[k].cfg)))
             if who is not None:
                 per_env.setdefault(who, []).append((i, d))
             if snap is not None:
@@ -434,7 +451,9 @@ def c19_world_run(ops, seed, tier, only=None):
                 for other, val in snap.items():
                     if other in after and after[other] != val:
                         touched.append((i, other, k, op["op"]))
-        layouts = {k: layout_sig(s.cfg) for k, s in w.envs.items()}
+        layouts = {"final": {k: layout_sig(s.cfg)
+                             for k, s in w.envs.items()},
+                   "hist": layout_hist}
     finally:
         w.close()
     return per_env, touched, layouts, dict(w.counters)
@@ -561,11 +580,13 @@ def c19_generate(seed, tier):
                         "shared_generator": shared_gen})
             constructed.append(k)
             continue
-        if r < 0.30 and not pending and rng.random() < 0.3:
-            # re-construct an environment id (a new object replaces it)
+        if r < 0.30 and not pending and rng.random() < 0.6:
+            # re-construct an environment id (a new object replaces the old
+            # one, which dies) - from its own spec or from another member's
             k = rng.choice(constructed)
-            ops.append({"op": "construct", "env": k, "spec": specs[k],
-                        "modes": gens[k][1], "share": share[k],
+            j = rng.choice(constructed) if rng.random() < 0.5 else k
+            ops.append({"op": "construct", "env": k, "spec": specs[j],
+                        "modes": gens[k][1], "share": share[j],
                         "shared_generator": shared_gen})
             continue
         if r < 0.34:
@@ -658,14 +679,23 @@ def c19_check(trace, tier, res):
                 cur = op["env"]
             last_con[i] = cur
 
+        def layout_at(i, k):
+            """Layout of the environment that had id k when op i ran."""
+            sig = None
+            for (j, kk, sg) in layouts["hist"]:
+                if j <= i and kk == k:
+                    sig = sg
+            return sig
+
         def d10_detail(i, victim):
             lc = last_con.get(i)
+            lv, ll = layout_at(i, victim), \
+                (layout_at(i, lc) if lc is not None else None)
             return {
                 "victim": victim, "op_number": i,
                 "victim_is_last_constructed": lc == victim,
                 "victim_layout_differs_from_last_constructed":
-                    (lc is not None and lc in layouts and victim in layouts
-                     and layouts[lc] != layouts[victim])}
+                    (lv is not None and ll is not None and lv != ll)}
         events = []
         for (i, other, actor, kind) in touched:
             events.append((i, "C19.no-touch", other,
@@ -708,7 +738,7 @@ def c19_check(trace, tier, res):
                        and a["env"] != b["env"])
         if switches >= 3:
             counters.hit("probe.3plus_context_switches")
-        if len(set(map(repr, layouts.values()))) > 1:
+        if len(set(map(repr, [sg for _, _, sg in layouts["hist"]]))) > 1:
             counters.hit("probe.different_layouts")
         else:
             counters.hit("probe.same_layout")
